@@ -450,27 +450,64 @@ def run(ctx):
     res.not_decided += ["getters return exactly the data supplied for every length; acceptance by the validator/decoder; arithmetic sufficiency of the size"]
 
     # ---- R1: generic Payload::setData<Header> instantiations and the forwarding builders
-    def stores_pair(f, hdr):
+    def stores_pair(f, hdr, datap=None, size_p=None, off_p=None, depth=0):
         """f resizes its buffer to sizeof(hdr) + n and copies exactly n bytes from its data parameter
-        to data() + sizeof(hdr), in that order, on every path (n = the length parameter)."""
+        to data() + sizeof(hdr), in that order, on every path (n = the length parameter).  A forwarder
+        that hands (sizeof(hdr), data, n) to one out-of-line helper of its class is judged through the
+        helper, the helper's offset parameter standing for sizeof(hdr)."""
         from rules.c02 import prov
         from rules.decoder_rules import _linear
         hsize = fb.record(hdr)["size"]
-        datap, size_p = f.params[0]["decl"], f.params[1]["decl"]
+        if datap is None:
+            datap, size_p = f.params[0]["decl"], f.params[1]["decl"]
         rs = [(kind, c, ln) for _, kind, c, ln in facts.vector_sizing(f)]
         cp = [(c, facts.copy_args(c)) for c in f.calls() if facts.copy_args(c)]
+        if not rs and not cp and depth == 0:
+            fw = [c for c in f.calls() if fb.resolve_call(c) is not None and fb.resolve_call(c).rec and fb.resolve_call(c).body is not None and
+                  strip_all_casts(c.get("obj", {})).get("k") in ("this", None) and len(c.get("args", [])) >= 3]
+            if len(fw) == 1:
+                g = fb.resolve_call(fw[0])
+                args = fw[0]["args"]
+                gd = gs = go = None
+                for prm, a in zip(g.params, args):
+                    a0 = strip_all_casts(a)
+                    if a0.get("decl") == datap:
+                        gd = prm["decl"]
+                    elif a0.get("decl") == size_p:
+                        gs = prm["decl"]
+                    elif const_value(a0) == hsize:
+                        go = prm["decl"]
+                allp = paths.enumerate_paths(f)
+                every = all(any(x["id"] == fw[0]["id"] for x in q.calls()) for q in allp)
+                if gd and gs and go and every:
+                    return stores_pair(g, hdr, gd, gs, go, 1)
         if len(rs) != 1 or len(cp) != 1 or rs[0][0] != "set":
             return False, "expected one resize and one copy, found %d / %d" % (len(rs), len(cp))
 
         def syms(x):
-            return "n" if x.get("k") == "ref" and x.get("decl") == size_p else None
+            if x.get("k") == "ref" and x.get("decl") == size_p:
+                return "n"
+            if off_p is not None and x.get("k") == "ref" and x.get("decl") == off_p:
+                return "H"
+            return None
+        _lin0 = _linear
+
+        def _linear(fn, e, sy):
+            form = _lin0(fn, e, sy)
+            if form is not None and "H" in form:
+                form = dict(form)
+                form[1] = form.get(1, 0) + form.pop("H") * hsize
+            return form
         form = _linear(f, rs[0][2], syms)
         okr = form is not None and form.get("n") == 1 and form.get(1, 0) == hsize and set(form) <= {"n", 1}
         c, (dst, src, ln) = cp[0]
         lform = _linear(f, ln, syms) if ln is not None else None
         oklen = lform is not None and lform.get("n") == 1 and lform.get(1, 0) == 0 and set(lform) <= {"n", 1}
         pd, ps = prov(f, dst), prov(f, src)
-        okdst = pd.kind == "vec" and pd.off == hsize and canon(strip_all_casts(rs[0][1].get("obj"))) == pd.base
+        doff = pd.off
+        if doff is None and off_p is not None and getattr(pd, "sym", None) == off_p:
+            doff = hsize  # data() + <offset parameter>, bound to sizeof(Header) by the forwarder
+        okdst = pd.kind == "vec" and doff == hsize and canon(strip_all_casts(rs[0][1].get("obj"))) == pd.base
         oksrc = ps.kind == "param" and ps.base == datap and ps.off == 0
         cfg = f.cfg
         okord = cfg.pos_of[rs[0][1]["id"]] < cfg.pos_of[c["id"]] if cfg.block_for(rs[0][1]) == cfg.block_for(c) else \
